@@ -37,44 +37,64 @@ SOURCE_FUNCS = [
     (_SP, "SingleGrid.place_agent"), (_SP, "SingleGrid.move_agent"), (_SP, "SingleGrid.remove_agent"),
     (_SP, "MultiGrid.place_agent"), (_SP, "MultiGrid.remove_agent"), (_SP, "_HexGrid.get_neighborhood_mask"),
 ]
-RULE = ("histories = one grid (discrete: OrthogonalMoore/VonNeumann/Hex, 2-D and 3-D, cell capacity none/1/2; legacy: "
-        "SingleGrid, MultiGrid, HexSingleGrid, HexMultiGrid) of at most 12 cells + 6..22 operations out of: create/add/remove layers (incl. clashes, wrong "
-        "shape, detached layers re-attached), cell writes, layer writes (incl. negative and out-of-range indices), "
-        "set_cells / modify_cells with and without condition (binary ufunc, unary ufunc, python function), "
-        "modify_cell, full-array assignment, agent place / move (cell setter, move_to, move_agent) / move_relative / "
-        "remove incl. the rejected ones (occupied SingleGrid cell, full cell, no cell in that direction) and several "
-        "agents per MultiGrid cell, select_cells over conditions x masks x "
-        "only_empty x extreme values (ties on purpose) in list and mask form; the whole state (every layer through "
-        "the layer view and through the cell attributes, the three name tables, emptiness) is observed after every "
-        "operation; non-trivial = at least 4 operations of which one write/bulk op succeeded and one select returned "
-        "a non-empty answer; distinct = by SHA1 of the history")
+RULE = ("histories = one grid of at most 12 cells (discrete: OrthogonalMoore / OrthogonalVonNeumann / Hex grid, 2-D and 3-D, "
+        "with and without torus, cell capacity None / 0 / 1 / 2 / 1.0 / 2.0; legacy: SingleGrid, MultiGrid, HexSingleGrid, "
+        "HexMultiGrid) + 6..22 operations out of: create / add / remove layers (clashes with a layer, with a cell attribute, wrong "
+        "shape, detached layers re-attached), cell-attribute writes, layer writes (negative and out-of-range indices), set_cells / "
+        "modify_cells with and without condition (binary ufunc, unary ufunc, python function; every admissible layer-dtype x "
+        "operand-dtype pair; operands and values as python scalars, NumPy scalars, 0-d arrays, bools in int layers), legacy "
+        "modify_cell, whole-array assignment (the caller's array modified afterwards), user callables that raise part-way, agent "
+        "place / move (cell setter, move_to, move_agent) / move_relative (Moore, von Neumann, hex; torus) / remove incl. every "
+        "rejection (occupied SingleGrid cell, full cell, no cell in that direction), several agents per MultiGrid cell, agents of "
+        "four classes (subclass of a subclass, mixin after the base, truth value False), select_cells over conditions x masks x "
+        "only_empty x extreme values (ties on purpose; explicit empty dict / list arguments; asked twice; arguments checked for "
+        "mutation) in list and mask form, PropertyLayer.select_cells, aggregate (sum / max / min / mean), get_neighborhood_mask "
+        "(radius up to 9, empty neighbourhoods, asked twice with the first result modified), 144 dtype probes per run, a sibling "
+        "grid of the same class alive in the same process; plus two structured families every run (all agent rejections and all "
+        "directions on small grids; int64 values beyond 2^53) and an ORACLE-ONLY stream of float layers with non-dyadic values "
+        "(0.1, 1/3, 1e300, -0.0 ...: bit-exact read-back through both views, IEEE-exact conditional set / modify, exact "
+        "selection, sums within 1e-12). The whole state (every layer object through the layer view and through every cell "
+        "attribute, the three name tables, emptiness and the emptiness layer / mask) is observed after every operation; "
+        "non-trivial = at least 4 operations of which one write/bulk op succeeded and one select returned a non-empty answer; "
+        "distinct = by SHA1 of the history")
 TRUSTED_BASE = [
-    "Coq 8.16.1 kernel (coqc); vm_compute used for the non-vacuity examples and for evaluating the model in the correspondence",
-    "no axioms: Print Assumptions reports 'Closed under the global context' for every C11/C18 theorem",
-    "harness/props/C11.py driver+observer and the Gallina literal printer (T2, differential testing, not a proof)",
-    "Model/PropLayer.v is a hand transcription of property_layer.py / cell.py add_agent+remove_agent / space.py "
-    "PropertyLayer+_PropertyGrid+SingleGrid mask updates; NumPy arrays = finite maps coordinate -> Z in row-major "
-    "order, np.where / copyto(where=) / logical_and / masked max,min / zip(*np.where) as list functions",
+    "Coq 8.16.1 kernel (coqc); vm_compute used for the non-vacuity examples, the closed T1 facts and for evaluating the model in the correspondence",
+    "no axioms: Print Assumptions reports 'Closed under the global context' for all 33 theorems of Properties/C11.v (30 C11_*, 3 C18_proplayer_*)",
+    "harness/props/C11.py driver + observer + Gallina literal printer (T2, differential testing, not a proof); the printer resolves an "
+    "operation term against the layer dtype the driver reports (bool `+` = or, logical_not on floats = 1.0/0.0, operand scaling)",
+    "T1 translators harness/tables/proplayer.py (stage order of select_cells, operand of only_empty) and harness/tables/proplayer_code.py "
+    "(19 function bodies translated statement by statement via a subclass of pyexpr.Tr, alpha-normalised: local names, messages, "
+    "docstrings are not part of the tie); the ~70-line list-function library in its HEADER (g_where, g_copyto, g_masked, g_ma_max, "
+    "g_getitem, g_dict_*, g_hasattr ...) is the hand-written model of the NumPy / dict / set primitives",
+    "Model/PropLayer.v is a hand transcription of property_layer.py, cell.py add_agent / remove_agent, cell_agent.py cell setter / "
+    "move_relative, grid.py connection offsets, and space.py PropertyLayer / _PropertyGrid / SingleGrid / MultiGrid mask updates, tied to "
+    "the source by the bridge lemmas of Proofs/PropLayerBridge.v (model function = translated function) and by T2; NumPy arrays = finite "
+    "maps coordinate -> Z in row-major order",
+    "not translated, therefore trusted as modelled: the user callables (as Z -> bool / Z -> Z), is_single_argument_function, hasattr "
+    "(name codes >= 100 = attributes every Cell has), the neighbourhood computation (C07 / C09; handed to the model as an outcome), the "
+    "layers[name] lookups of select_cells",
     "Uint63 primitive hash only in scratch Cases files, never under a theorem",
 ]
 ASSUMPTIONS = [
-    "values are bool, int64 without overflow, or dyadic floats (multiples of 1/16, modelled as Z scaled by 16; "
-    "float multipliers are integers) so that all arithmetic is exact",
-    "modify_cells / modify_cell are fed exactly the admissible (layer dtype, form, operation, operand dtype) combinations = "
-    "those whose NumPy result keeps the layer's dtype (C11_dtype_boundary; operand not wider than the layer, no negative "
-    "of bools, python max/min only with an operand of the layer's own dtype because np.vectorize takes its output type "
-    "from the first element); the result dtype of ALL combinations is checked against NumPy by the probe operations; "
-    "values after a dtype change are not modelled; also excluded: conditions that are ufuncs, indices with fewer "
-    "components than the array has axes, masks of a shape other than the grid's",
-    "the built-in 'empty' layer is read (conditions, only_empty) but never written or removed by the history itself; "
-    "cell capacities are None, 1 or 2 (the emptiness theorem assumes capacity >= 0); discrete grids with and without "
-    "torus; move_relative on Moore, von Neumann and hex grids (hex offset tables re-extracted from grid.py)",
+    "model-checked stream: values are bool, int64 without overflow (incl. values beyond 2^53), or dyadic floats (multiples of 1/16, "
+    "modelled as Z scaled by 16; float multipliers are integers) so that all arithmetic is exact; non-dyadic floats are covered by "
+    "the oracle-only stream (implementation against the statement, no model)",
+    "modify_cells / modify_cell are fed exactly the admissible (layer dtype, form, operation, operand dtype) combinations = those whose "
+    "NumPy result keeps the layer's dtype (C11_dtype_boundary: operand not wider than the layer, no negative of bools, python max/min "
+    "only with an operand of the layer's own dtype because np.vectorize takes its output type from the first element); the result "
+    "dtype of ALL combinations NumPy determines is checked against NumPy by 144 probe operations per run; VALUES after a dtype change "
+    "(e.g. int layer + float operand -> float64 layer) are not modelled",
+    "not generated: conditions that are ufuncs, indices with fewer components than the array has axes, masks of a shape other than "
+    "the grid's, NaN, PropertyLayer.from_data, pickling / deepcopy of layers (C19), per-cell capacities (C06), two grids sharing one layer object",
+    "the built-in 'empty' layer is read (conditions, only_empty, aggregate) but never written or removed by the history itself "
+    "(hypothesis `clean` of C11_empty_layer_true, C11_select_exact_actual, C18_proplayer_full_cell); the emptiness theorems assume capacity >= 0",
     "order of select_cells' list form is row-major (np.where order), compared in order",
-    "get_neighborhood_mask: the neighbourhood itself is C07's / C09's subject; the one the grid reports is handed to the "
-    "model as an outcome (legality-checked: inside the grid); on legacy hex grids it is executed only when "
-    "_HexGrid has its own get_neighborhood_mask(pos, include_center, radius) (fixes/C11-5; before that fix the inherited "
-    "method passes `moore` to _HexGrid.get_neighborhood -> TypeError, finding C11-5)",
-    "aggregate: np.sum / np.max / np.min, and np.mean where the number of cells is a power of two (exact division)",
+    "get_neighborhood_mask: the neighbourhood itself is C07's / C09's subject; the one the grid reports is handed to the model as an "
+    "outcome (legality-checked: inside the grid); since fix C11-5 it is executed on legacy hex grids too",
+    "aggregate: np.sum / np.max / np.min, and np.mean where the number of cells is a power of two (exact division); in the float stream "
+    "np.sum / np.mean within 1e-12 relative",
+    "user callables that raise are covered by the oracle only (the model skips the operation; the statement checked is: the exception "
+    "propagates and nothing observable changed)",
 ]
 E_VALUE, E_KEY, E_INDEX, E_ATTR, E_TYPE, E_EXC = 1, 2, 3, 4, 5, 6
 DT_BOOL, DT_INT, DT_FLOAT = 0, 1, 2
@@ -225,6 +245,9 @@ class _G:
         ref, h = self.ref()
         if ref is None:
             return
+        if self.rng.random() < 0.06:
+            self.ops.append(["boom", ref, self.rng.choice(["cond", "op"]), self.rng.random() < 0.5])
+            return
         dt = self.handles[h][1]
         form, f, hasval = self.fop(dt)
         if self.impl == "legacy" and self.rng.random() < 0.35:
@@ -366,7 +389,7 @@ class _G:
                     self.ops.append(["lsel", ref, self.cond(self.handles[h][1]), r.random() < 0.5])
                 return
         if r.random() < 0.12:
-            self.ops.append(["nmask", list(r.choice(self.coords)), r.random() < 0.5, r.choice([1, 1, 2]), r.random() < 0.5])
+            self.ops.append(["nmask", list(r.choice(self.coords)), r.random() < 0.5, r.choice([1, 1, 2, 5, 9]), r.random() < 0.5])
             return
         names = list(self.grid)
         user = [n for n in names if n != 0]
@@ -420,7 +443,26 @@ def _random_case(rng, impl=None, n_ops=None):
             + [g.op_layers] * 3 + [g.op_select] * 6)
     while len(g.ops) < n_ops:
         rng.choice(menu)()
-    return {"impl": impl, "cls": cls, "dims": list(dims), "cap": cap, "torus": g.torus, "ops": g.ops}
+    return {"impl": impl, "cls": cls, "dims": list(dims), "cap": cap, "capform": rng.choice(["int", "int", "float", "zero"]),
+            "torus": g.torus, "ops": g.ops}
+
+
+def _bigint_cases():
+    """int64 values beyond 2^53 (not representable as doubles): written, compared, selected, aggregated exactly"""
+    B1, B2, B3 = 2 ** 53 + 1, 2 ** 60 + 3, -(2 ** 62)
+    out = []
+    for impl, cls, mk in (("discrete", "OrthogonalVonNeumannGrid", [["create", 1, DT_INT, 0]]),
+                          ("legacy", "MultiGrid", [["new", 1, DT_INT, [2, 2], 0], ["add", 0]])):
+        h = 1 if impl == "discrete" else 0
+        ops = [*mk, ["cellwrite", [0, 0], 1, B1], ["lwrite", ["h", h], [0, 1], B2], ["lwrite", ["n", 1], [1, 0], B3],
+               ["lwrite", ["h", h], [0, 0], B1],
+               ["select", [[1, ["eq", B1]]], [], [], False, True, False], ["select", [[1, ["gt", 2 ** 53]]], [[1, 0]], [], False, True, True],
+               ["select", [], [[1, 1]], [], False, False, False], ["agg", ["n", 1], 0], ["agg", ["n", 1], 1], ["agg", ["h", h], 2],
+               ["lsel", ["n", 1], ["ge", B1 + 1], True], ["set", ["n", 1], B1 + 1, ["eq", B1]],
+               ["modcells", ["n", 1], "ubin", ["add", 1, DT_INT], True, ["ge", 2 ** 60]], ["modcells", ["h", h], "py", ["neg"], False, ["lt", 0]],
+               ["select", [[1, ["eq", B1 + 1]]], [[1, 1]], [], False, True, False]]
+        out.append({"impl": impl, "cls": cls, "dims": [2, 2], "cap": 0, "torus": False, "ops": ops})
+    return out
 
 
 def _probe_cases():
@@ -451,6 +493,8 @@ def gen_cases(rng, tier):
     for _ in range(n):
         cases.append(_random_case(rng))
     cases += _probe_cases()
+    cases += _float_cases(rng, 60 if tier == "quick" else 600)
+    cases += _bigint_cases()
     # the structured agent histories (every rejection, shared and full cells) also go through the model
     for c in enumerate_cases("quick"):
         if c["ops"] and (c["ops"][0][0] == "place" or any(o[0] in ("mrel", "nmask") for o in c["ops"])):
@@ -594,6 +638,39 @@ def _pyval(dt, v):
     return bool(v) if dt == DT_BOOL else (int(v) if dt == DT_INT else v / 16.0)
 
 
+def _salt(op):
+    """a deterministic number from the content of an operation (never from its index: the shrinker deletes ops)"""
+    t = 0
+    stack = [op]
+    while stack:
+        x = stack.pop()
+        if isinstance(x, (list, tuple)):
+            stack.extend(x)
+        elif isinstance(x, bool):
+            t += 1 if x else 2
+        elif isinstance(x, int):
+            t += abs(x) * 7 + 3
+        elif isinstance(x, str):
+            t += sum(map(ord, x))
+    return t
+
+
+def _as(dt, v, salt, allow0d=True):
+    """the value v (layer units) of dtype dt as the API may be handed it: python scalar, NumPy scalar, 0-d array,
+    and - for 0 / 1 in an int layer - a python bool"""
+    import numpy as np
+
+    x = _pyval(dt, v)
+    k = salt % 4
+    if k == 1:
+        return {DT_BOOL: np.bool_, DT_INT: np.int64, DT_FLOAT: np.float64}[dt](x)
+    if k == 2 and allow0d:
+        return np.array(x)
+    if k == 3 and dt == DT_INT and v in (0, 1):
+        return bool(v)
+    return x
+
+
 def _mk_cond(dt, cd):
     import operator
 
@@ -699,7 +776,10 @@ class _Run:
                 from mesa.discrete_space.property_layer import PropertyDescriptor, PropertyLayer
 
                 self.PL, self.PD = PropertyLayer, PropertyDescriptor
-                self.grid = getattr(ds, case["cls"])(self.dims, torus=bool(case.get("torus")), capacity=(case.get("cap") or None),
+                cap = case.get("cap") or 0
+                capform = case.get("capform", "int")
+                capacity = (0 if capform == "zero" else None) if not cap else (float(cap) if capform == "float" else cap)
+                self.grid = getattr(ds, case["cls"])(self.dims, torus=bool(case.get("torus")), capacity=capacity,
                                                      random=random.Random(1))
                 self.handles = [self.grid._mesa_property_layers["empty"]]
             else:
@@ -708,6 +788,22 @@ class _Run:
                 self.PL = msp.PropertyLayer
                 self.grid = getattr(msp, case["cls"])(self.dims[0], self.dims[1], False)
                 self.handles = []
+        # prior history in the same process: a sibling grid of the same class with layers of the same names must neither
+        # influence this grid nor be influenced by it (dynamic cell classes, descriptors, class-level sets)
+        self.sibling = None
+        if sum(self.dims) % 2:
+            with warnings.catch_warnings():
+                warnings.simplefilter("ignore")
+                if self.discrete:
+                    sib = type(self.grid)(self.dims, torus=False, random=random.Random(2))
+                    for nm in ("p1", "p2", "p3"):
+                        sib.create_property_layer(nm, default_value=77, dtype=int)
+                    sib._cells[self.coords[0]].p1 = 78
+                else:
+                    sib = type(self.grid)(self.dims[0], self.dims[1], False)
+                    for nm in ("p1", "p2", "p3"):
+                        sib.add_property_layer(self.PL(nm, self.dims[0], self.dims[1], 77, dtype=int))
+            self.sibling = sib
         self.agents = {}      # id -> agent object (ever created)
         # the oracle's shadow: what the statement says the values are
         self.sh = [dict.fromkeys(self.coords, 1)] if self.discrete else []     # per handle: coord -> scaled int
@@ -720,6 +816,7 @@ class _Run:
         self.poisoned = False   # a cell attribute was shadowed: the cells no longer work
         self.empty_ok = True    # the emptiness layer / mask currently agrees with the agents' positions
         self.empty_reported = False
+        self.shape_reported = set()
 
     # ---- access to the implementation
     def gdict(self):
@@ -792,7 +889,10 @@ class _Run:
                 continue                      # the built-in "empty" layer: check (4)
             a = self.arr(h)
             if tuple(a.shape) != tuple(self.sh_dims[hi]) or _kind_dt(a) != self.sh_dt[hi]:
-                self.fail(f"{kind}/shape-or-dtype-changed", i,
+                if hi in self.shape_reported:
+                    continue
+                self.shape_reported.add(hi)
+                self.fail("layer/shape-or-dtype-changed", i,
                           f"after {op}: layer {h.name} has shape {a.shape} dtype {a.dtype}, was created with {self.sh_dims[hi]} / dtype code {self.sh_dt[hi]}")
                 continue
             bad = [(c, _enc(a[c]), self.sh[hi][c]) for c in self.sh[hi] if _enc(a[c]) != self.sh[hi][c]]
@@ -826,6 +926,14 @@ class _Run:
                         self.fail("one-value/cell-vs-layer", i,
                                   f"after {op}: cell{c}.{n} reads {cv} but layer {n}.data{c} reads {lv}")
                         break
+        if self.sibling is not None:
+            sd = self.sibling._mesa_property_layers if self.discrete else self.sibling.properties
+            exp1 = 78 if self.discrete else 77
+            ok = (sorted(n for n in sd if n != "empty") == ["p1", "p2", "p3"] and int(sd["p1"].data[self.coords[0]]) == exp1
+                  and all(int(sd[nm].data[c]) == 77 for nm in ("p2", "p3") for c in self.coords)
+                  and (not self.discrete or bool(sd["empty"].data.all())))
+            if not ok:
+                self.fail("sibling-grid/cross-talk", i, f"after {op}: a second grid of the same class in the same process was changed by operations on this one")
         # (4) emptiness
         occ = set(self.sh_agents.values())
         self.empty_ok = True
@@ -892,6 +1000,42 @@ def _only_empty_is_culprit(R, kw, exp):
     return got == exp
 
 
+_AGENT_CLASSES = {}
+
+
+def _agent_class(discrete, a):
+    """heterogeneous population: the framework class, a subclass of a subclass, a class with a mixin AFTER the framework
+    base in the MRO, and an agent whose truth value is False and whose len() is 0"""
+    import mesa
+    from mesa.discrete_space import CellAgent
+
+    key = (discrete, a % 4)
+    if key not in _AGENT_CLASSES:
+        base = CellAgent if discrete else mesa.Agent
+
+        class Sub(base):
+            pass
+
+        class SubSub(Sub):
+            extra = 1
+
+        class Mixin:
+            tag = "m"
+
+        class WithMixinAfter(base, Mixin):
+            pass
+
+        class Falsy(base):
+            def __bool__(self):
+                return False
+
+            def __len__(self):
+                return 0
+
+        _AGENT_CLASSES[key] = [base, SubSub, WithMixinAfter, Falsy][a % 4]
+    return _AGENT_CLASSES[key]
+
+
 def _exc_kind(e):
     if isinstance(e, KeyError):
         return E_KEY
@@ -909,7 +1053,150 @@ def _exc_kind(e):
 SITE = {"add": "add_property_layer", "create": "add_property_layer", "remove": "remove_property_layer",
         "lwrite": "set_cell", "modcell": "modify_cell", "modcells": "modify_cells", "set": "set_cells",
         "setarr": "set_cells", "select": "select_cells", "place": "place_agent", "cellwrite": "cell-write",
-        "move": "move_agent", "mrel": "move_relative", "rm": "remove_agent", "new": "PropertyLayer", "nmask": "get_neighborhood_mask", "agg": "aggregate", "probe": "modify_cells-dtype", "lsel": "layer_select_cells"}
+        "move": "move_agent", "mrel": "move_relative", "rm": "remove_agent", "new": "PropertyLayer", "nmask": "get_neighborhood_mask", "agg": "aggregate", "probe": "modify_cells-dtype", "lsel": "layer_select_cells", "boom": "user-callable"}
+
+
+FLOATS = [0.1, 0.2, 0.3, 1 / 3, 2 / 3, 1e-300, 1e300, -0.0, 0.7, 2 ** 53 + 2.0, -1.1, 1e-9, 123456.789]
+
+
+def _float_cases(rng, n):
+    """oracle-only stream: float layers holding NON-dyadic values (the Z-valued model cannot represent them)"""
+    out = []
+    for _ in range(n):
+        impl = rng.choice(["discrete", "legacy"])
+        dims = rng.choice([(1, 1), (2, 2), (2, 3), (1, 4), (3, 3)])
+        coords = list(itertools.product(*(range(d) for d in dims)))
+        ops = []
+        for _ in range(rng.randint(5, 14)):
+            k = rng.random()
+            if k < 0.3:
+                ops.append(["fw", list(rng.choice(coords)), rng.choice(FLOATS), rng.randrange(3)])
+            elif k < 0.45:
+                ops.append(["fset", rng.choice(FLOATS), rng.choice(CMPS), rng.choice(FLOATS)])
+            elif k < 0.65:
+                ops.append(["fmod", rng.choice(["add", "mul", "max", "neg"]), rng.choice(FLOATS), rng.choice(["ubin", "py"]),
+                            rng.choice([None, [rng.choice(CMPS), rng.choice(FLOATS)]])])
+            elif k < 0.9:
+                ops.append(["fsel", rng.choice(CMPS), rng.choice(FLOATS), rng.choice([None, 0, 1])])
+            else:
+                ops.append(["fagg", rng.randrange(4)])
+        out.append({"impl": impl, "cls": "OrthogonalMooreGrid" if impl == "discrete" else "SingleGrid", "dims": list(dims),
+                    "cap": 0, "torus": False, "stream": "float", "ops": ops})
+    return out
+
+
+def _run_float(case):
+    """non-dyadic floats: what is written is read back BIT-EXACT through both views; conditional set / modify follow IEEE
+    double arithmetic exactly (python float arithmetic is the same arithmetic); selections compare exactly; np.sum /
+    np.mean within 1e-12 relative (NumPy sums pairwise), np.max / np.min exactly"""
+    import math
+    import operator
+    import random
+    import warnings
+
+    import numpy as np
+
+    warnings.simplefilter("ignore")
+    impl = case["impl"]
+    discrete = impl == "discrete"
+    dims = tuple(case["dims"])
+    coords = list(itertools.product(*(range(d) for d in dims)))
+    if discrete:
+        import mesa.discrete_space as ds
+
+        grid = getattr(ds, case["cls"])(dims, torus=False, random=random.Random(1))
+        Lr = grid.create_property_layer("p1", default_value=0.1, dtype=float)
+    else:
+        import mesa.space as msp
+
+        grid = getattr(msp, case["cls"])(dims[0], dims[1], False)
+        Lr = msp.PropertyLayer("p1", dims[0], dims[1], 0.1, dtype=float)
+        grid.add_property_layer(Lr)
+    sh = dict.fromkeys(coords, 0.1)
+    cmpf = {"gt": operator.gt, "ge": operator.ge, "lt": operator.lt, "le": operator.le, "eq": operator.eq, "ne": operator.ne}
+    failures = []
+
+    def fail(key, i, what):
+        failures.append({"key": f"C11/{impl}/float/{key}", "op": i, "what": what})
+
+    def same(a, b):
+        return a == b and math.copysign(1, a) == math.copysign(1, b)
+
+    for i, op in enumerate(case["ops"]):
+        k = op[0]
+        try:
+            if k == "fw":
+                c, x, how = tuple(op[1]), op[2], op[3]
+                if c not in sh:
+                    continue
+                v = [x, np.float64(x), np.array(x)][how]
+                if discrete and how != 1:
+                    grid._cells[c].p1 = v
+                elif discrete:
+                    Lr.data[c] = v
+                else:
+                    Lr.set_cell(c, v)
+                sh[c] = x
+            elif k == "fset":
+                _, x, cm, kk = op
+                Lr.set_cells(x, lambda v, f=cmpf[cm], kk=kk: f(v, kk))
+                for c in sh:
+                    if cmpf[cm](sh[c], kk):
+                        sh[c] = x
+            elif k == "fmod":
+                _, kind, kk, form, cd = op
+                cf = (lambda v, f=cmpf[cd[0]], q=cd[1]: f(v, q)) if cd else None
+                pyf = {"add": lambda v: v + kk, "mul": lambda v: v * kk, "max": lambda v: max(v, kk), "neg": lambda v: -v}[kind]
+                if kind == "neg":
+                    fn, val = (np.negative, None) if form == "ubin" else (pyf, None)
+                elif form == "ubin":
+                    fn, val = {"add": np.add, "mul": np.multiply, "max": np.maximum}[kind], kk
+                else:
+                    fn, val = pyf, None
+                if discrete:
+                    grid.modify_properties("p1", fn, val, cf)
+                else:
+                    Lr.modify_cells(fn, val, cf)
+                for c in sh:
+                    if cd is None or cmpf[cd[0]](sh[c], cd[1]):
+                        sh[c] = float(pyf(sh[c]))
+            elif k == "fsel":
+                _, cm, kk, ext = op
+                kw = {"conditions": {"p1": lambda a, f=cmpf[cm], kk=kk: f(a, kk)}}
+                if ext is not None:
+                    kw["extreme_values"] = {"p1": ["highest", "lowest"][ext]}
+                got = [tuple(int(x) for x in c) for c in grid.select_cells(**kw)]
+                exp = [c for c in coords if cmpf[cm](sh[c], kk)]
+                if ext is not None and exp:
+                    t = (max if ext == 0 else min)(sh[c] for c in exp)
+                    exp = [c for c in exp if sh[c] == t]
+                if got != exp:
+                    fail("select_cells/wrong-cells", i, f"{op}: got {got}, exact answer {exp} for values {sh}")
+                one = [tuple(int(x) for x in c) for c in Lr.select_cells(lambda a, f=cmpf[cm], kk=kk: f(a, kk))]
+                if one != [c for c in coords if cmpf[cm](sh[c], kk)]:
+                    fail("layer_select_cells/wrong-cells", i, f"{op}: PropertyLayer.select_cells gave {one} for values {sh}")
+            elif k == "fagg":
+                fn = [np.sum, np.max, np.min, np.mean][op[1]]
+                r = float(Lr.aggregate(fn) if discrete else Lr.aggregate_property(fn))
+                vals = [sh[c] for c in coords]
+                exp = [math.fsum(vals), max(vals), min(vals), math.fsum(vals) / len(vals)][op[1]]
+                ok = (r == exp) if op[1] in (1, 2) else math.isclose(r, exp, rel_tol=1e-12, abs_tol=1e-300 + 1e-12 * max(abs(v) for v in vals))
+                if not ok:
+                    fail("aggregate/wrong-value", i, f"{op}: got {r!r}, the values {vals} give {exp!r}")
+        except Exception as e:  # noqa: BLE001
+            fail(f"{k}/unexpected-exception", i, f"{op} raised {type(e).__name__}: {e}")
+            break
+        # both views, bit for bit
+        bad = [c for c in coords if not same(float(Lr.data[c]), sh[c])]
+        if bad:
+            fail(f"{k}/wrong-values", i, f"after {op}: layer at {bad[0]} holds {float(Lr.data[bad[0]])!r}, the history gives {sh[bad[0]]!r}")
+            for c in bad:
+                sh[c] = float(Lr.data[c])
+        if discrete:
+            bad = [c for c in coords if not same(float(grid._cells[c].p1), float(Lr.data[c]))]
+            if bad:
+                fail("one-value/cell-vs-layer", i, f"after {op}: cell{bad[0]}.p1 = {float(grid._cells[bad[0]].p1)!r} but the layer holds {float(Lr.data[bad[0]])!r}")
+    return {"obs": [], "failures": failures, "model": False}
 
 
 def run_impl(case):
@@ -917,6 +1204,8 @@ def run_impl(case):
 
     import numpy as np
 
+    if case.get("stream") == "float":
+        return _run_float(case)
     warnings.simplefilter("ignore")
     R = _Run(case)
     obs = []
@@ -989,7 +1278,7 @@ def run_impl(case):
                     result = ("skip",)
                 else:
                     hi = R.sh_grid.get(n)
-                    setattr(R.grid._cells[c], NAMES[n], _pyval(R.sh_dt[hi] if hi is not None else DT_INT, v))
+                    setattr(R.grid._cells[c], NAMES[n], _as(R.sh_dt[hi] if hi is not None else DT_INT, v, _salt(op)))
                     if hi is not None:
                         R.sh[hi][c] = v
                     result = ("ok", [])
@@ -1009,18 +1298,18 @@ def run_impl(case):
                         if cn is None:
                             expect_err = E_INDEX
                         if discrete:
-                            Lr.data[tuple(c)] = _pyval(dt, v)
+                            Lr.data[tuple(c)] = _as(dt, v, _salt(op))
                         else:
-                            Lr.set_cell(tuple(c), _pyval(dt, v))
+                            Lr.set_cell(tuple(c), _as(dt, v, _salt(op)))
                         if cn is not None:
                             R.sh[hi][cn] = v
                     elif kind == "set":
                         _, _, v, cd = op
                         cf = _mk_cond(dt, cd) if cd else None
                         if discrete and byname:
-                            R.grid.set_property(Lr.name, _pyval(dt, v), cf)
+                            R.grid.set_property(Lr.name, _as(dt, v, _salt(op)), cf)
                         else:
-                            Lr.set_cells(_pyval(dt, v), cf)
+                            Lr.set_cells(_as(dt, v, _salt(op)), cf)
                         for c, x in R.sh[hi].items():
                             if cd is None or _cond_z(cd, x):
                                 R.sh[hi][c] = v
@@ -1039,11 +1328,17 @@ def run_impl(case):
                             Lr.data = a
                         else:
                             Lr.set_cells(a)
+                        if a.dtype.kind != "b":
+                            a += 1              # the caller keeps using ITS array: the layer must hold a copy
+                        else:
+                            np.logical_not(a, out=a)
                         for c, v in zip(keys, vals):
                             R.sh[hi][c] = v
                     elif kind == "modcells":
                         _, _, form, f, hasval, cd = op
                         fn, k = _mk_operation(dt, form, f)
+                        if form == "ubin" and k is not None and _salt(op) % 3:
+                            k = np.asarray(k)[()] if _salt(op) % 3 == 1 else np.array(k)      # NumPy scalar / 0-d array operand
                         cf = _mk_cond(dt, cd) if cd else None
                         if form == "ubin" and not hasval:
                             expect_err = E_VALUE
@@ -1091,6 +1386,14 @@ def run_impl(case):
                     kw["masks"] = ms[0] if (bare and len(ms) == 1) else ms
                 if only_empty:
                     kw["only_empty"] = True
+                if bare:                        # explicit empty / falsy arguments instead of leaving them out
+                    kw.setdefault("conditions", {})
+                    kw.setdefault("extreme_values", {})
+                    if not masks:
+                        kw["masks"] = []
+                    kw.setdefault("only_empty", False)
+                arg_snapshot = (list(kw.get("conditions") or {}), dict(kw.get("extreme_values") or {}),
+                                [m.copy() for m in (kw["masks"] if isinstance(kw.get("masks"), list) else ([kw["masks"]] if "masks" in kw else []))])
                 try:
                     got_l = R.grid.select_cells(return_list=True, **kw)
                     got_m = R.grid.select_cells(return_list=False, **kw)
@@ -1103,6 +1406,14 @@ def run_impl(case):
                         continue
                     raise
                 gl = [tuple(int(x) for x in c) for c in got_l]
+                after_args = (list(kw.get("conditions") or {}), dict(kw.get("extreme_values") or {}),
+                              list(kw["masks"] if isinstance(kw.get("masks"), list) else ([kw["masks"]] if "masks" in kw else [])))
+                if (after_args[0] != arg_snapshot[0] or after_args[1] != arg_snapshot[1] or len(after_args[2]) != len(arg_snapshot[2])
+                        or any(not np.array_equal(x, y) for x, y in zip(after_args[2], arg_snapshot[2]))):
+                    R.fail("select_cells/mutates-arguments", i, f"{op}: select_cells changed the conditions / extreme_values / masks it was given")
+                again = [tuple(int(x) for x in c) for c in R.grid.select_cells(return_list=True, **kw)]
+                if again != gl:
+                    R.fail("select_cells/not-repeatable", i, f"{op}: the same query asked twice without a change in between gave {gl} then {again}")
                 gm_arr = np.asarray(np.ma.getdata(got_m)).astype(bool)
                 if isinstance(got_m, np.ma.MaskedArray):
                     gm_arr = gm_arr & ~np.ma.getmaskarray(got_m) if False else gm_arr
@@ -1153,6 +1464,15 @@ def run_impl(case):
                     m = (R.grid.get_neighborhood_mask(c, include_center=ic, radius=r) if discrete
                          else (R.grid.get_neighborhood_mask(c, ic, r) if leg_hex else R.grid.get_neighborhood_mask(c, moore, ic, r)))
                     got = {k for k in R.coords if bool(m[k])}
+                    first = m.copy()
+                    m[...] = ~m                     # the caller owns the result: a second call must not see this
+                    m2 = (R.grid.get_neighborhood_mask(c, radius=r, include_center=ic) if discrete
+                          else (R.grid.get_neighborhood_mask(c, ic, r) if leg_hex else R.grid.get_neighborhood_mask(c, moore, ic, r)))
+                    if not np.array_equal(m2, first):
+                        R.fail("get_neighborhood_mask/not-repeatable", i,
+                               f"get_neighborhood_mask({c}, include_center={ic}, radius={r}) asked twice (the first result modified by the caller, "
+                               f"keyword order swapped) gave different masks")
+                    m = first
                     if tuple(m.shape) != R.dims or got != nb or m.dtype.kind != "b":
                         R.fail("get_neighborhood_mask/wrong-mask", i,
                                f"get_neighborhood_mask({c}, include_center={ic}, radius={r}) is True on {sorted(got)} "
@@ -1182,6 +1502,39 @@ def run_impl(case):
                         R.fail("aggregate/wrong-value", i,
                                f"{op}: {['sum', 'max', 'min', 'mean'][akind]} over layer {Lr.name!r} gives {r!r} (= {gotl} in layer units), the values {vals} give {exp}")
                     result = ("ok", gotl)
+            elif kind == "boom":
+                # a condition / operation supplied by the user that RAISES part-way: nothing may have changed, and
+                # the history continues from that state (oracle only; the model skips the operation)
+                _, ref, which, bulk = op
+                Lr = R.resolve(ref)
+                if Lr is None:
+                    result = ("skip",)
+                else:
+                    hi = R.hindex(Lr)
+                    calls = []
+
+                    def bad(x, calls=calls):
+                        calls.append(1)
+                        if len(calls) >= 2:
+                            raise ZeroDivisionError("user code failed")
+                        return x
+
+                    try:
+                        if which == "cond":
+                            Lr.set_cells(_pyval(R.sh_dt[hi], next(iter(R.sh[hi].values()))), bad)
+                        elif bulk or discrete:
+                            Lr.modify_cells(bad)
+                        else:
+                            Lr.modify_cell(tuple(R.coords[0]), lambda x: 1 // 0)
+                        raised = False
+                    except ZeroDivisionError:
+                        raised = True
+                    if not raised:
+                        R.fail("user-exception/swallowed", i, f"{op}: the exception raised by the user's callable did not propagate")
+                    if R.view() != before:
+                        R.fail("user-exception/not-atomic", i, f"{op}: the user's callable raised, but the observable state changed",
+                               c18="user-callable-raises")
+                    result = ("skip",)
             elif kind == "lsel":
                 # PropertyLayer.select_cells(condition, return_list): one layer, the condition applied to its array
                 _, ref, cd, aslist = op
@@ -1239,7 +1592,7 @@ def run_impl(case):
                             import mesa
                             from mesa.discrete_space import CellAgent
 
-                            R.agents[a] = CellAgent(R.model) if discrete else mesa.Agent(R.model)
+                            R.agents[a] = _agent_class(discrete, a)(R.model)
                         ag = R.agents[a]
                         if rejects(c):
                             expect_err = E_EXC
@@ -1326,7 +1679,7 @@ def run_impl(case):
                 result = ("err", k)
             else:
                 result = ("err", 99)
-                if kind == "select" and discrete and op[4] and isinstance(e, TypeError) and "PropertyLayer" in str(e):
+                if kind == "select" and discrete and op[4] and isinstance(e, TypeError):
                     R.fail("select_cells/only_empty-ignored", i,
                            f"{op}: select_cells(only_empty=True) raised {type(e).__name__}: {e} (the PropertyLayer object, not its array, is and-ed into the mask)")
                 elif kind == "modcells" and op[2] == "uun":
@@ -1427,6 +1780,8 @@ def _op(case, op, extra=None):
         if op[2] == 3 and n & (n - 1):
             return "Skip"
         return f"Aggregate {_ref(op[1])} {L.z(op[2])}"
+    if k == "boom":
+        return "Skip"
     if k == "lsel":
         return f"LayerSelect {_ref(op[1])} {_cond(op[2])} {L.b(op[3])}"
     if k == "probe":
@@ -1447,6 +1802,8 @@ def _op(case, op, extra=None):
 
 
 def coq_case(case):
+    if case.get("stream") == "float":        # oracle-only stream: nothing for the model to run
+        return "{| c_discrete := true; c_multi := false; c_cap := 0; c_dims := [1; 1]; c_ops := [] |}"
     extras = case.get("_ops_for_model") or [{}] * len(case["ops"])
     if len(extras) != len(case["ops"]):
         extras = [{}] * len(case["ops"])
@@ -1456,6 +1813,8 @@ def coq_case(case):
 
 
 def op_kinds(case):
+    if case.get("stream") == "float":
+        return [f"{case['impl']}:float-stream/{op[0]}" for op in case["ops"]]
     out = []
     for op in case["ops"]:
         k = op[0]
@@ -1479,16 +1838,38 @@ def nontrivial(case):
     return wrote and sel
 
 
-LEVEL_TEXT = ("Machine-checked Coq theorems over a Gallina transcription of both property-layer implementations (layer objects in a "
-              "heap, the grid's layer dict, the per-class PropertyDescriptors and _mesa_properties as separate tables, the emptiness "
-              "layer / mask updated by agent placement): for ALL operation histories the cell attribute and the layer read the same "
-              "value (C11_one_value), writes through either view and bulk set/modify are read back pointwise through both "
-              "(C11_write_read_*, C11_bulk_*), the emptiness layer / legacy empty mask equals actual emptiness (C11_empty_layer_true, C11_empty_mask_true), "
-              "select_cells selects exactly the coordinates satisfying masks, only_empty, conditions and the sequential "
-              "highest/lowest criteria (C11_select_exact), list and mask form agree (C11_list_mask_same), and every rejected call "
-              "leaves the state unchanged (C18_proplayer_atomic, C18_proplayer_full_cell); selection is also stated over ACTUAL emptiness for every reachable state (C11_select_exact_actual), and the order of the select_cells stages is re-extracted from the source on every run (T1, C11_source_select_order). The model is tied to the code by differential evaluation on "
-              "random and enumerated histories (T2); an independent oracle states the property on the implementation.")
-LEVEL_NOTE = ("Theorems are about the model; NumPy primitives are modelled as list functions and validated only by the correspondence. "
-              "Trusted: Coq kernel, the driver/observer, the hand transcription. No axioms.")
-TECHNIQUE = "Coq proof (invariants by induction over histories, closed under global context) + vm_compute correspondence + independent oracle"
+LEVEL_TEXT = ("33 machine-checked Coq theorems (closed under the global context, each with a non-vacuity Example among 13) over an executable "
+              "Gallina model of BOTH property-layer implementations: layer objects in a heap; the grid's layer dict, the per-class "
+              "PropertyDescriptors and _mesa_properties as separate tables updated in source order; NumPy index normalisation; bulk set / "
+              "modify with every rejection path; the select_cells pipeline run in the stage order re-extracted from the source; agents with "
+              "cell capacity, the repaired cell setter, move_relative on Moore / von Neumann / hex grids with torus, SingleGrid and MultiGrid "
+              "mask updates. Proved for ALL operation histories (induction / invariants, no bounds): cell attribute and layer read the same "
+              "value (C11_one_value, C11_tables_invariant); writes through either view and bulk set / modify are read back pointwise "
+              "(C11_write_read_cell/_layer, C11_bulk_set/_modify); the emptiness layer and the legacy empty_mask of SingleGrid and MultiGrid "
+              "equal actual emptiness (C11_empty_layer_true, C11_empty_mask_true); select_cells returns exactly the coordinates satisfying "
+              "masks, conditions, 'no agent in the cell' and the sequential highest / lowest criteria (C11_select_exact, "
+              "C11_select_exact_actual, C11_list_mask_same, C11_layer_select_exact); get_neighborhood_mask is True exactly on the reported "
+              "neighbourhood, all False when empty (C11_nbhd_mask_exact, C11_nbhd_mask_hex_of_source); aggregate is the sum / mean / max / "
+              "min of the cells' values (C11_aggregate_exact); the admissible dtype pairs are exactly the dtype-preserving ones "
+              "(C11_dtype_boundary); every rejected call leaves the state identical, 'Cell is full' included (C18_proplayer_atomic, "
+              "_continue, _full_cell). Code-level T1: 19 function bodies (set_cells, modify_cells, modify_cell, set_cell, "
+              "PropertyDescriptor.__get__/__set__, add / remove_property_layer, the extreme-value loop body, get_neighborhood_mask x3, "
+              "ufunc_requires_additional_input; both source files) are translated from the working tree on every run and proved equal to "
+              "the model's functions by robust bridge lemmas (C11_source_*_is_model, C11_step_modify_cells_of_source), with the headline "
+              "statements restated about the translated code (C11_bulk_modify_of_source, C11_extreme_exact_of_source, "
+              "C11_nbhd_mask_of_source); table-level T1 for the stage order and the only_empty operand (C11_source_select_order, "
+              "C11_source_only_empty_array). T2: every history is run on the implementation and evaluated by the model under vm_compute "
+              "(per-operation hashes of the whole observable state); an independent oracle states the property on the implementation "
+              "and supplies the failing input.")
+LEVEL_NOTE = ("Theorems are about the model and about the translated source functions; what connects them to CPython / NumPy is T1 (fail-closed "
+              "translation + bridge lemmas) and T2 (differential testing), not proof: NumPy primitives are list functions of a hand-written "
+              "library, user callables and the neighbourhood computation are parameters. Oracle-only (no model): float layers with "
+              "non-dyadic values, user callables that raise, argument-mutation / repeatability checks, the sibling grid. Not covered at all: "
+              "values after a dtype change, from_data, pickling of layers, NaN. Defects found by this check and fixed in /repo: C11-1 "
+              "(only_empty and-ed the layer object), C11-2 (layer names shadowing inherited cell attributes), C11-3 (unary ufuncs refused: "
+              "nargs vs nin), C11-4 (get_neighborhood_mask on an empty neighbourhood), C11-5 (legacy hex get_neighborhood_mask); no known "
+              "finding remains open. Trusted: Coq kernel, translators, driver / observer / printer. No axioms.")
+TECHNIQUE = ("Coq proof (invariants by induction over operation histories; 202 lemmas in 3 proof files; closed under the global context) + "
+             "code-level T1 (source functions translated to Gallina on every run, bridge lemmas) + vm_compute correspondence (T2) + "
+             "independent oracle incl. oracle-only streams")
 DESIGN_REF = "DESIGN.md section 4, C11 (and C18 property-layer sites)"
